@@ -176,6 +176,40 @@ def run(ctx):
     ctx.extra["monotonic_observation"] = outs[0] if outs else "none"
     if outs and outs[0].split()[1] != "0":
         ctx.violation({"kind": "monotonic-decreased"}, {"observation": outs[0], "readings": k})
+    # elapsed() entry points against the live clock: a value `delta` ns in the future (by a safe margin) must give None,
+    # a value `delta` ns in the past must give Some(d) with -delta <= d < -delta + 1 s
+    el = []
+    for kind in ("instant", "system", "mono"):
+        for delta in [-1, -999, -1000000, -999999999, -1000000000, -1000000001, -5 * 10**9, -(10**12),
+                      50_000_000, 200_000_000, 700_000_000, 999_000_000, 1_000_000_000, 1_500_000_000, 10**10] + \
+                     [r.range(40_000_000, 999_999_999) for _ in range(12)] + [-r.below(3 * 10**9) for _ in range(12)]:
+            if kind == "mono" and delta > 0:
+                continue          # MonotonicInstant cannot be in the future (it is only ever obtained from now())
+            el.append("elapsed %s %d" % (kind, delta))
+    rc, outs, _ = C.run_filter([exe], el, timeout=120)
+    bad_el = 0
+    for c, o in zip(el, outs):
+        delta = int(c.split()[2])
+        why = None
+        if o == "panic":
+            why = "panicked"
+        elif delta > 0:
+            if o != "none":
+                why = "elapsed() of a value %d ns in the future returned %s, not None" % (delta, o)
+        else:
+            w = o.split()
+            if w[0] != "some":
+                why = "elapsed() of a value %d ns in the past returned None" % (-delta)
+            else:
+                d = int(w[1]) * NANOS + int(w[2])
+                if not (-delta <= d < -delta + NANOS):
+                    why = "elapsed() of a value %d ns in the past returned %d ns" % (-delta, d)
+        if why:
+            bad_el += 1
+            ctx.violation({"op": "elapsed", "kind": c.split()[1] + (":future" if delta > 0 else ":past")},
+                          {"case": c, "implementation": o, "why": why, "how_to_replay": "echo '%s' | %s" % (c, exe)})
+    ctx.extra["elapsed_observation"] = {"cases": len(el), "failures": bad_el}
+    ctx.evaluations += len(el)
     sl = [0, 1, 1000, 50000, 999999, 1000000, 3000000] + [ctx.rng.below(5_000_000) for _ in range(10 if ctx.tier == "quick" else 200)]
     rc, outs, _ = C.run_filter([exe], ["realsleep %d" % d for d in sl], timeout=600)
     short = [(d, o) for d, o in zip(sl, outs) if not (o.startswith("slept ") and int(o.split()[1]) >= d)]
